@@ -29,6 +29,7 @@ type Entry struct {
 	Native   bool     `json:"native"`
 	Unwind   int      `json:"unwind,omitempty"`
 	Switches int      `json:"switches,omitempty"`
+	BlockChoices bool `json:"block_choices,omitempty"`
 	MaxPaths int      `json:"max_paths,omitempty"`
 	TimeoutS int      `json:"timeout_s,omitempty"`
 	Conc     int      `json:"concretize,omitempty"`
@@ -41,6 +42,7 @@ type PropSpec struct {
 	Entries     []Entry  `json:"entries"`
 	Assumptions []string `json:"assumptions"`
 	Outside     []string `json:"outside"`
+	OptionalWitnesses []string `json:"optional_witnesses,omitempty"`
 }
 
 type Known struct {
@@ -228,6 +230,7 @@ func cmdCheck(args []string) {
 	workers := fs.Int("workers", 14, "parallel workers")
 	verbose := fs.Bool("v", false, "verbose")
 	noEvidence := fs.Bool("no-evidence", false, "do not write the evidence file")
+	record := fs.Bool("record-witnesses", false, "record the Reach witnesses hit by each harness as the expected set")
 	allLabels2 := fs.Bool("all-labels", false, "check obligations tagged with other properties too")
 	fs.Parse(args)
 	t0 := time.Now()
@@ -269,7 +272,6 @@ func cmdCheck(args []string) {
 	exit := 0
 	var violLines, knownLines, inconcl []string
 	nativeRuns := 0
-	allLabels, allReached := map[string]bool{}, map[string]bool{}
 	for _, e := range entries {
 		p := pkgs[e.Pkg]
 		if p == nil {
@@ -293,6 +295,10 @@ func cmdCheck(args []string) {
 		if e.Switches > 0 {
 			cfg.MaxSwitches = e.Switches
 		}
+		if e.Switches < 0 {
+			cfg.MaxSwitches = 0
+		}
+		cfg.BlockChoices = e.BlockChoices
 		if e.MaxPaths > 0 {
 			cfg.MaxPaths = e.MaxPaths
 		}
@@ -318,12 +324,6 @@ func cmdCheck(args []string) {
 		}
 		for why, n := range res.Incomplete {
 			inconcl = append(inconcl, fmt.Sprintf("%s: %s (x%d)", e.Func, why, n))
-		}
-		for _, l := range res.ReachLabels {
-			allLabels[l] = true
-			if res.Reached[l] > 0 {
-				allReached[l] = true
-			}
 		}
 		seenLabel := map[string]bool{}
 		for _, v := range res.Violations {
@@ -363,16 +363,36 @@ func cmdCheck(args []string) {
 			violLines = append(violLines, fmt.Sprintf("VIOLATION property=%s replay=%s  # %s: %s [%s] facts=%v", *prop, rp, e.Func, v.Label, v.Native, v.Facts))
 		}
 	}
-	if *only == "" {
-		var ls []string
-		for l := range allLabels {
-			if !allReached[l] {
-				ls = append(ls, l)
+	wfile := filepath.Join(verifDir, "harness", "witnesses.json")
+	recorded := map[string][]string{}
+	if b, err := os.ReadFile(wfile); err == nil {
+		json.Unmarshal(b, &recorded)
+	}
+	if *record {
+		for k, e := range entries {
+			var ls []string
+			for l, n := range results[k].Reached {
+				if n > 0 {
+					ls = append(ls, l)
+				}
 			}
+			sort.Strings(ls)
+			recorded[e.Func] = ls
 		}
-		sort.Strings(ls)
-		for _, l := range ls {
-			inconcl = append(inconcl, fmt.Sprintf("VACUOUS: witness %q was not reached by any harness of this run", l))
+		b, _ := json.MarshalIndent(recorded, "", " ")
+		os.WriteFile(wfile, b, 0644)
+	} else {
+		for k, e := range entries {
+			want, ok := recorded[e.Func]
+			if !ok {
+				inconcl = append(inconcl, fmt.Sprintf("%s: no recorded reachability witnesses (run with -record-witnesses on the unchanged tree)", e.Func))
+				continue
+			}
+			for _, l := range want {
+				if results[k].Reached[l] == 0 {
+					inconcl = append(inconcl, fmt.Sprintf("%s: VACUOUS: witness %q (reached on the unchanged tree) was not reached", e.Func, l))
+				}
+			}
 		}
 	}
 	for _, l := range knownLines {
